@@ -82,6 +82,7 @@ def run(tape, scenario):
     unreg = {}           # group number -> in-flight frames of unregistered groups
 
     main_stack = []
+    filled = set()       # program table slots taken by other masters' groups
 
     async def main(loop):
         try:
@@ -109,15 +110,44 @@ def run(tape, scenario):
             ec2.programs = ec.programs
             masters.append(ec2)
             world.count("c22/second-master-on-the-table")
+        if with_groups and tape.chance("c22/table-nearly-full", 12):
+            # many groups of other masters are registered already: 60-63 of the 64 slots
+            from ebpfcat.bpf import update_elem
+            filler = Marker()
+            filler.load()
+            nfree = 1 + with_groups + tape.draw("c22/free-slots", 3)
+            slots = tape.shuffle("c22/filled-slots", list(range(64)))[:64 - nfree]
+            for i in slots:
+                update_elem(ec.programs, struct.pack("<I", i),
+                            struct.pack("<I", filler.file_descriptor))
+            filled.update(slots)
+            world.count("c22/program-table-nearly-full")
         env.collide["rand/ebpfcat"] = lambda a, b: (
-            tape.pick("c22/slot-collide", sorted(groups)) if groups and (a, b) == (0, 63)
+            tape.pick("c22/slot-collide", sorted(set(groups) | filled))
+            if (groups or filled) and (a, b) == (0, 63)
             and tape.chance("c22/collide-slot", 50) else None)
+        if tape.chance("c22/lookup-faults", 15):
+            # looking a slot up fails now and then for another reason than "empty"
+            kernel.command_fault = lambda cmd: (
+                tape.pick("fault/bpf-errno", [12, 1, 4])
+                if cmd == 1 and stage[0] == "register" and tape.chance("fault/bpf-lookup-fails", 15)
+                else 0)
         stack = main_stack
         for _ in range(with_groups):
             m = Marker()
             cm = tape.pick("c22/registering-master", masters).register_sync_group(m)
-            idx = cm.__enter__()
+            try:
+                idx = cm.__enter__()
+            except OSError as e:
+                if getattr(kernel, "command_fault", None) is None:
+                    raise
+                world.count("c22/registration-refused-after-failed-lookup")
+                continue
             stack.append(cm)
+            if idx in filled:
+                viol("slot-handed-out-twice", f"program table slot {idx} belongs to another "
+                     f"master's group and was given away")
+                return
             if idx in groups:
                 viol("slot-handed-out-twice", f"program table slot {idx} was given to a "
                      f"second group while the first is registered")
@@ -125,6 +155,7 @@ def run(tape, scenario):
             groups[idx] = dict(marker=m, runs=0, inflight=[], noprog=0, noprog_tx=0,
                                noprog_user=0, prog=None)
         env.collide.pop("rand/ebpfcat", None)
+        kernel.command_fault = None
         # the per-group loop counters are 32 bit and only their low byte travels in the
         # frame: start them anywhere (as after a long history), biased to the wrap-arounds
         if groups and tape.chance("c22/preset-counter", 60):
@@ -203,7 +234,7 @@ def run(tape, scenario):
         nsteps = 20 + tape.draw("c22/steps", 180)
         unreg_groups = []
         if scenario == "foreign" or tape.chance("c22/with-unregistered", 40):
-            free = [g for g in range(64) if g not in groups]
+            free = [g for g in range(64) if g not in groups and g not in filled]
             kind = tape.draw("c22/big-kind", 4)
             if kind == 0 or not groups:
                 big = 64 + tape.draw("c22/big", 1000)
